@@ -117,6 +117,21 @@ def run(res, drv, tier, seed):
                     spec = gmgen.brute_marginal(dom, joint, t, total)
                     checks.append(('project-cached', dict(base, path='project(cached)', attrs=t), (list(F.domain.attrs), fvals(F)), (t, spec), tol, True))
                     reqs.append(None)
+                # (b') the library's own consumers of answers (synthetic_data rescales the tables it is handed,
+                # in place) must not disturb later answers: query every full clique, generate data, ask again
+                if float(total) >= 1:
+                    for c in model.cliques:
+                        model.project(tuple(c))
+                    np.random.seed(r.randrange(2 ** 31))
+                    try:
+                        model.synthetic_data()
+                    except Exception:
+                        pass
+                    for t in [list(c) for c in model.cliques] + r.sample(tups, min(3, len(tups))):
+                        F = model.project(tuple(t))
+                        spec = gmgen.brute_marginal(dom, joint, t, total)
+                        checks.append(('project-after-synth', dict(base, path='project(cached, after synthetic_data)', attrs=t), (list(F.domain.attrs), fvals(F)), (t, spec), tol, True))
+                        reqs.append(None)
                 # (f) save / load
                 path = os.path.join(tmpdir, f'm{mi}.pkl')
                 GraphicalModel.save(model, path)
